@@ -19,10 +19,10 @@ LEVEL = "exploration"
 RULE = (
     "Histories over the operations {open(use_cache, create_cache, rpc in {1, N, N+1, default}, "
     "options dict plain / with nested storage_options / absent), cli-create(adjacent | user dir, "
-    "rpc), delete local cache, delete adjacent cache, tear (truncate) the index files of one location, reload an earlier returned tree}. Quick: a "
+    "rpc), open of the same product on memory:// or vtrace:// (uncached, with / without storage_options), delete local cache, delete adjacent cache, tear (truncate) the index files of one location, reload an earlier returned tree}. Quick: a "
     "Hypothesis RuleBasedStateMachine (120 machines x <= 12 steps) plus all histories of length "
-    "<= 2 over a 13-operation alphabet and all 96 'produce a cache, disturb it, open' triples; thorough: breadth-first enumeration of ALL histories up "
-    "to length 4 over that alphabet (30940 per product) for a level-1.1 ScanSAR-like product (image files differ only in the scan suffix) and a level-1.5 product. "
+    "<= 2 over a 14-operation alphabet and all 96 'produce a cache, disturb it, open' triples; thorough: breadth-first enumeration of ALL histories up "
+    "to length 4 over that alphabet (41370 per product) for a level-1.1 ScanSAR-like product (image files differ only in the scan suffix) and a level-1.5 product. "
     "Invariants after every step: the returned tree equals the uncached reference for this "
     "step's rpc; the product directory (listing + sha256) is unchanged except index files made "
     "by cli-create; the user cache dir contains exactly the index files the model predicts "
@@ -116,6 +116,8 @@ class World:
         self.url = self.prod.url
         self.local = set()  # images with a user-dir index
         self.adjacent = set()
+        self.files = files
+        self.remote = {}  # filesystem kind -> the same product materialised there
         self.torn_local = {}  # image -> the torn bytes its user-dir index must keep until repaired
         self.torn_adjacent = {}
         self.returned = []  # (tree, flat digest reference tag)
@@ -130,6 +132,8 @@ class World:
         except OSError:
             pass
         self.prod.__exit__(None, None, None)
+        for prod in self.remote.values():
+            prod.__exit__(None, None, None)
 
     # ---- invariants -----------------------------------------------------------------------
     def check_state(self, what):
@@ -247,6 +251,33 @@ class World:
                 else:
                     out.extend(dict(d, where=f"history step: {d['where']}") for d in harness.diff_flat(ref, flat, kind="history-differs")[:4])
                     self.returned.append((tree, tag))
+        elif kind == "open_remote":
+            # the same product on a non-local filesystem, never cached: the trees must be the same,
+            # the caller's dicts untouched and nothing may be remembered for later (local) opens
+            if op["fs"] not in self.remote:
+                self.remote[op["fs"]] = harness.Materialised(self.files, op["fs"]).__enter__()
+            opts = None
+            if op.get("opts") != "absent":
+                opts = {"use_cache": False}
+                if op.get("opts") == "storage_options":
+                    opts["storage_options"] = {"skip_instance_cache": False}
+            before = copy.deepcopy(opts)
+            if opts is None:
+                # defaults would look for a cache of the remote root: none exists, so it parses
+                tree, err = harness.guard(ceos_alos2.open_alos2, self.remote[op["fs"]].url)
+            else:
+                tree, err = harness.guard(ceos_alos2.open_alos2, self.remote[op["fs"]].url, backend_options=opts)
+            if opts != before:
+                out.append(harness.disc("options-mutated", what, before, opts))
+            if err is not None:
+                out.append(harness.disc("exception", what, "a tree", harness.exc_text(err)))
+            else:
+                ref, _ = reference(self.level, "default")
+                flat, ferr = harness.guard(harness.flatten, tree)
+                if ferr is not None:
+                    out.append(harness.disc("exception", what, "loadable tree", harness.exc_text(ferr)))
+                else:
+                    out.extend(dict(d, where=f"history step: {d['where']}") for d in harness.diff_flat(ref, flat, kind="history-differs")[:4])
         elif kind == "cli":
             tag = op.get("rpc", "default")
             for image in self.images:
@@ -334,6 +365,7 @@ ALPHABET = [
     {"op": "reload_old", "index": 0},
     {"op": "tear", "where": "user"},
     {"op": "tear", "where": "adjacent"},
+    {"op": "open_remote", "fs": "memory", "opts": "storage_options"},
 ]
 
 
@@ -366,6 +398,7 @@ op_strategy = st.one_of(
     st.just({"op": "delete_local"}),
     st.just({"op": "delete_adjacent"}),
     st.fixed_dictionaries({"op": st.just("tear"), "where": st.sampled_from(["user", "adjacent"])}),
+    st.fixed_dictionaries({"op": st.just("open_remote"), "fs": st.sampled_from(["memory", "vtrace"]), "opts": st.sampled_from(["plain", "storage_options", "absent"])}),
     st.fixed_dictionaries({"op": st.just("reload_old"), "index": st.integers(0, 5)}),
 )
 
@@ -428,7 +461,7 @@ def classify(case):
 
 LEVEL_TEXT = (
     "Model-based stateful testing of open histories: a Hypothesis rule-based state machine and a "
-    "breadth-first enumeration of all bounded histories over a 13-operation alphabet; after every "
+    "breadth-first enumeration of all bounded histories over a 14-operation alphabet; after every "
     "step the returned tree, the product directory, the user cache directory, the caller's option "
     "dicts, the library's default dicts and all earlier trees are checked against a model of the "
     "cache state. Exhaustive up to history length 4 (thorough) / 2 (quick) for two products."
